@@ -123,10 +123,9 @@ def run(ctx):
         if r.kind == "canary" and not r.discharged:
             raise core.CheckerBroken("vacuous hypotheses: canary %s is %s" % (r.name, r.verdict))
         if r.kind != "canary" and not r.discharged:
-            ctx.violation(core.Violation("C13", r.name, "obligation generated from the current source of slices1d is not discharged (%s by %s)%s" % (
-                r.verdict, r.backend, "; the bounded run of the real code fails %s: %s" % (donors[0].obligation, donors[0].what[:300]) if donors else ""),
-                input=donors[0].input if donors else None, cls={"function": "slices1d"},
-                solver={"verdict": r.verdict, "backend": r.backend, "detail": r.detail, "site": r.ob.meta.get("site", "")}, no_input=not donors))
+            ctx.violation(core.Violation("C13", r.name, "obligation generated from the current source of slices1d is not discharged (%s by %s)" % (r.verdict, r.backend),
+                                         input=None, cls={"function": "slices1d"},
+                                         solver={"verdict": r.verdict, "backend": r.backend, "detail": r.detail, "site": r.ob.meta.get("site", "")}, no_input=True))
     # a structural obligation is a pattern: matching it proves the clause for all inputs, not matching it proves nothing
     st_stale += [(name, "source is not of the stated form: %s" % text) for name, ok_, text in st_obls if not ok_]
     st_obls = [o for o in st_obls if o[1]]
